@@ -58,7 +58,8 @@ Definition grid_rel (t : list row) (g : list rrow) : Prop := Forall2 (Forall2 ce
 (* the tab stops of a terminal on which no stop was set or cleared: every 8 columns *)
 Definition tabs0 (w : Z) : list Z := repeatz 1 (if 0 <? w mod 8 then w / 8 + 1 else w / 8).
 
-Definition modes0 : modes_t := mkModes false false false false false false true true false charset_default_gen.
+(* the modes of a session of the compared subset: only origin mode (DECOM) ever changes *)
+Definition modes0 (o : bool) : modes_t := mkModes false false false false false o true true false charset_default_gen.
 
 Record R0 (t : st) (v : vt) : Prop := mkR0 {
   r_inv : Inv t;
@@ -73,7 +74,7 @@ Record R0 (t : st) (v : vt) : Prop := mkR0 {
   r_attr : attr_rel (attrspec t) (v_attr v);
   r_raok : RA_ok (v_attr v);
   r_u8 : u8eat t = None;
-  r_modes : modes t = modes0;
+  r_modes : modes t = modes0 (v_origin v);
   r_cset : cs_rel (cset t) (v_cs v);
   r_tabs : tabstops t = tabs0 (v_w v);
   r_replies : replies_of (events t) = map render_reply (v_replies v);
@@ -102,7 +103,7 @@ Lemma R0_moved t t' v x y p :
   R0 t' (with_xy v x y p).
 Proof.
   intros [] I' (E1 & E2 & E3 & E4 & E5 & E6 & E7 & E8 & E9 & E10 & E11 & E12) Hc Hr Hp.
-  constructor; cbn [with_xy v_w v_h v_g v_x v_y v_pend v_top v_bot v_attr v_sb v_sbknown v_replies v_cs]; try congruence; auto; hist.
+  constructor; cbn [with_xy v_w v_h v_g v_x v_y v_pend v_top v_bot v_attr v_sb v_sbknown v_replies v_cs v_origin]; try congruence; auto; hist.
 Qed.
 
 Lemma R0_parser t t' v :
@@ -145,18 +146,48 @@ Proof.
   replace (negb (negb (1 =? 0))) with false by reflexivity. rewrite andb_false_r. reflexivity.
 Qed.
 
+(* the line a cursor motion to line y ends on: origin mode keeps the cursor inside the margins *)
+Definition clampy (v : vt) (y : Z) : Z :=
+  if v_origin v then (if v_bot v <? y then v_bot v else if y <? v_top v then v_top v else y) else clamp y (v_h v).
+
+Lemma constrain_gen t v x y :
+  modes t = modes0 (v_origin v) -> width t = v_w v -> height t = v_h v -> sr_start t = v_top v -> sr_end t = v_bot v ->
+  constrain t x y 0 = (clamp x (v_w v), clampy v y).
+Proof.
+  intros Hm Hw Hh Ht Hb. unfold constrain, constrain_coords_gen, clamp, clampy. cbv zeta.
+  rewrite Hm, Hw, Hh, Ht, Hb. cbn [m_constrain modes0].
+  replace (negb (negb (0 =? 0))) with true by reflexivity. rewrite andb_true_r.
+  destruct (v_origin v); reflexivity.
+Qed.
+
+Lemma constrain_R0 t v x y : R0 t v -> constrain t x y 0 = (clamp x (v_w v), clampy v y).
+Proof. intros []. apply constrain_gen; assumption. Qed.
+
+(* in origin mode the cursor is inside the margins *)
+Lemma R0_org t v : R0 t v -> v_origin v = true -> v_top v <= v_y v <= v_bot v.
+Proof.
+  intros [] O. pose proof (i_org t r_inv0) as Ho. rewrite r_modes0, r_cur0, r_top0, r_bot0 in Ho. cbn [m_constrain modes0 snd] in Ho.
+  apply Ho. exact O.
+Qed.
+
+Ltac csolve v Og :=
+  unfold clampy, clamp, one, line in *;
+  let O := fresh "O" in destruct (v_origin v) eqn:O; [specialize (Og eq_refl)|clear Og]; split_ifs; lia.
+
+Lemma clampy_in v y : (v_origin v = true -> v_top v <= y <= v_bot v) -> 0 <= y < v_h v -> clampy v y = y.
+Proof. intros Og Hy. csolve v Og. Qed.
+
 (* moving the cursor (clearing the pending wrap) *)
 Lemma R0_move t v x y :
   R0 t v ->
-  R0 (set_term_cursor (with_rotten t false) x y) (with_xy v (clamp x (v_w v)) (clamp y (v_h v)) false).
+  R0 (set_term_cursor (with_rotten t false) x y) (with_xy v (clamp x (v_w v)) (clampy v y) false).
 Proof.
   intros H. pose proof H as [].
   destruct (stc_frame (with_rotten t false) x y) as (F & C & Rt & _).
   eapply R0_moved; [exact H| | | | |discriminate].
   - eapply K_Inv. apply set_term_cursor_unrotten_K. assumption.
   - destruct F as (E1 & E2 & E3 & E4 & E5 & E6 & E7 & E8 & E9 & E10 & E11 & E12). repeat split; assumption.
-  - rewrite C. rewrite constrain_plain by (cbn; rewrite r_modes0; reflexivity). cbn [width height with_rotten].
-    rewrite r_w0, r_h0. reflexivity.
+  - rewrite C. change (constrain (with_rotten t false) x y 0) with (constrain t x y 0). apply constrain_R0. exact H.
   - rewrite Rt. reflexivity.
 Qed.
 
@@ -210,7 +241,7 @@ Qed.
 Lemma move_cursor_rel X v x y :
   R0 X v ->
   R0 (move_cursor X x y false false true)
-     (with_xy v (clamp (x + v_x v) (v_w v)) (clamp (y + v_y v) (v_h v)) false).
+     (with_xy v (clamp (x + v_x v) (v_w v)) (clampy v (y + v_y v)) false).
 Proof.
   intros H. unfold move_cursor. cbv zeta. cbn [orb]. pose proof H as []. rewrite r_cur0. cbn [fst snd].
   apply R0_move. assumption.
@@ -218,9 +249,20 @@ Qed.
 
 Lemma move_cursor_abs X v x y :
   R0 X v ->
-  R0 (move_cursor X x y false false false) (with_xy v (clamp x (v_w v)) (clamp y (v_h v)) false).
+  R0 (move_cursor X x y false false false)
+     (with_xy v (clamp x (v_w v)) (clampy v (if v_origin v then y + v_top v else y)) false).
 Proof.
-  intros H. unfold move_cursor. cbv zeta. cbn [orb]. pose proof H as []. rewrite r_modes0. cbn [m_constrain modes0].
+  intros H. unfold move_cursor. cbv zeta. cbn [orb]. pose proof H as []. rewrite r_modes0, r_top0. cbn [m_constrain modes0].
+  apply R0_move. assumption.
+Qed.
+
+(* the column stays: VPA *)
+Lemma move_cursor_line X v y :
+  R0 X v ->
+  R0 (move_cursor X 0 y true false false)
+     (with_xy v (clamp (0 + v_x v) (v_w v)) (clampy v (if v_origin v then y + v_top v else y)) false).
+Proof.
+  intros H. unfold move_cursor. cbv zeta. cbn [orb]. pose proof H as []. rewrite r_modes0, r_top0, r_cur0. cbn [m_constrain modes0 fst].
   apply R0_move. assumption.
 Qed.
 
@@ -237,8 +279,8 @@ Proof.
   replace (72 =? 66) with false by reflexivity. replace (72 =? 67) with false by reflexivity.
   replace (72 =? 68) with false by reflexivity. replace (72 =? 72) with true by reflexivity.
   eexists. split; [reflexivity|]. rewrite csi_args_2. cbn [arg nth]. rewrite !dflt_one.
-  pose proof (R0_bounds X v HX) as B.
-  erewrite with_xy_eq; [apply move_cursor_abs; assumption| |]; unfold clamp, one; split_ifs; lia.
+  pose proof (R0_bounds X v HX) as B. pose proof (R0_org X v HX) as Og.
+  erewrite with_xy_eq; [apply move_cursor_abs; assumption| |]; csolve v Og.
 Qed.
 
 (* CUU CUD CUF CUB *)
@@ -250,8 +292,8 @@ Proof.
   intros X HX. rewrite cd_move. replace (67 =? 65) with false by reflexivity.
   replace (67 =? 66) with false by reflexivity. replace (67 =? 67) with true by reflexivity.
   eexists. split; [reflexivity|]. rewrite csi_args_1. cbn [arg nth]. rewrite !dflt_one.
-  pose proof (R0_bounds X v HX) as B.
-  erewrite with_xy_eq; [apply move_cursor_rel; assumption| |]; unfold clamp, one; split_ifs; lia.
+  pose proof (R0_bounds X v HX) as B. pose proof (R0_org X v HX) as Og.
+  erewrite with_xy_eq; [apply move_cursor_rel; assumption| |]; csolve v Og.
 Qed.
 
 Lemma sim_cub s v n : R s v -> small n ->
@@ -263,8 +305,8 @@ Proof.
   replace (68 =? 66) with false by reflexivity. replace (68 =? 67) with false by reflexivity.
   replace (68 =? 68) with true by reflexivity.
   eexists. split; [reflexivity|]. rewrite csi_args_1. cbn [arg nth]. rewrite !dflt_one.
-  pose proof (R0_bounds X v HX) as B.
-  erewrite with_xy_eq; [apply move_cursor_rel; assumption| |]; unfold clamp, one; split_ifs; lia.
+  pose proof (R0_bounds X v HX) as B. pose proof (R0_org X v HX) as Og.
+  erewrite with_xy_eq; [apply move_cursor_rel; assumption| |]; csolve v Og.
 Qed.
 
 Lemma sim_cuu s v n : R s v -> small n -> ambiguous v (CCuu n) = false ->
@@ -274,8 +316,8 @@ Proof.
   eapply (sim_csi s v [n] 65 1 1 65); [assumption|repeat constructor; assumption|reflexivity|unfold plain_byte; lia|].
   intros X HX. rewrite cd_move. replace (65 =? 65) with true by reflexivity.
   eexists. split; [reflexivity|]. rewrite csi_args_1. cbn [arg nth]. rewrite !dflt_one.
-  pose proof (R0_bounds X v HX) as B. cbn [ambiguous] in Ha.
-  erewrite with_xy_eq; [apply move_cursor_rel; assumption| |]; unfold clamp, one in *; split_ifs; lia.
+  pose proof (R0_bounds X v HX) as B. pose proof (R0_org X v HX) as Og. cbn [ambiguous] in Ha.
+  erewrite with_xy_eq; [apply move_cursor_rel; assumption| |]; csolve v Og.
 Qed.
 
 Lemma sim_cud s v n : R s v -> small n -> ambiguous v (CCud n) = false ->
@@ -285,8 +327,8 @@ Proof.
   eapply (sim_csi s v [n] 66 1 1 66); [assumption|repeat constructor; assumption|reflexivity|unfold plain_byte; lia|].
   intros X HX. rewrite cd_move. replace (66 =? 65) with false by reflexivity. replace (66 =? 66) with true by reflexivity.
   eexists. split; [reflexivity|]. rewrite csi_args_1. cbn [arg nth]. rewrite !dflt_one.
-  pose proof (R0_bounds X v HX) as B. cbn [ambiguous] in Ha.
-  erewrite with_xy_eq; [apply move_cursor_rel; assumption| |]; unfold clamp, one in *; split_ifs; lia.
+  pose proof (R0_bounds X v HX) as B. pose proof (R0_org X v HX) as Og. cbn [ambiguous] in Ha.
+  erewrite with_xy_eq; [apply move_cursor_rel; assumption| |]; csolve v Og.
 Qed.
 
 Lemma R0_same t t' v :
@@ -314,20 +356,20 @@ Proof.
   eexists. split; [reflexivity|]. unfold carriage_return.
   destruct (stc_frame (with_rotten s false) 0 (snd (cur s))) as (_ & _ & _ & Ei & Ep & _).
   split; [|split; [rewrite Ei; exact He|rewrite Ep; exact Hp]].
-  pose proof (R0_bounds s v H0) as B. pose proof H0 as []. rewrite r_cur0. cbn [snd].
-  erewrite with_xy_eq; [apply R0_move; assumption| |]; unfold clamp; split_ifs; lia.
+  pose proof (R0_bounds s v H0) as B. pose proof (R0_org s v H0) as Og. pose proof H0 as []. rewrite r_cur0. cbn [snd].
+  erewrite with_xy_eq; [apply R0_move; assumption| |]; csolve v Og.
 Qed.
 
 Lemma sim_bs s v : R s v -> exists s', addbytes s (enc_cmd CBs) = Ok s' /\ R s' (exec v CBs).
 Proof.
   intros HR. pose proof (R_idle s v HR) as [He Hp Hu Hd Hm]. destruct HR as (H0 & _).
   cbn [enc_cmd exec]. rewrite addbytes_1. rewrite addbyte_ascii by (auto; lia). rewrite pc_bs by assumption.
-  pose proof (R0_bounds s v H0) as B. pose proof H0 as []. rewrite r_cur0. cbn [fst snd].
+  pose proof (R0_bounds s v H0) as B. pose proof (R0_org s v H0) as Og. pose proof H0 as []. rewrite r_cur0. cbn [fst snd].
   destruct (0 <? v_x v) eqn:C.
   - eexists. split; [reflexivity|].
     destruct (stc_frame (with_rotten s false) (v_x v - 1) (v_y v)) as (_ & _ & _ & Ei & Ep & _).
     split; [|split; [rewrite Ei; exact He|rewrite Ep; exact Hp]].
-    erewrite with_xy_eq; [apply R0_move; assumption| |]; unfold clamp; split_ifs; lia.
+    erewrite with_xy_eq; [apply R0_move; assumption| |]; csolve v Og.
   - eexists. split; [reflexivity|]. split; [|split; assumption].
     eapply R0_moved; [exact H0| | |exact r_cur0|reflexivity|discriminate].
     + eapply K_Inv. apply with_rotten_K. assumption.
@@ -374,12 +416,15 @@ Proof.
   { subst s2. cbn [sr_start with_sr_end with_sr_start]. rewrite constrain_ign. rewrite r_h0. split_ifs; lia. }
   assert (sr_end s2 = b' - 1) as S2.
   { subst s2. cbn [sr_end with_sr_end]. rewrite constrain_ign. cbn [height with_sr_start]. rewrite r_h0. split_ifs; lia. }
-  constructor; cbn [v_w v_h v_g v_x v_y v_pend v_top v_bot v_attr]; auto.
+  constructor; cbn [v_w v_h v_g v_x v_y v_pend v_top v_bot v_attr v_origin]; auto.
   - rewrite F1. exact r_w0.
   - rewrite F2. exact r_h0.
   - rewrite F3. exact r_grid0.
-  - rewrite Fc. rewrite constrain_plain by (cbn; rewrite r_modes0; reflexivity). cbn [width height with_rotten].
-    unfold clamp. subst s2. cbn [width height with_sr_end with_sr_start]. rewrite r_w0, r_h0. split_ifs; try lia. reflexivity.
+  - rewrite Fc. unfold constrain, constrain_coords_gen. cbv zeta. cbn [sr_start sr_end modes width height with_rotten].
+    rewrite S1, S2. replace (modes s2) with (modes X) by reflexivity. replace (width s2) with (width X) by reflexivity.
+    replace (height s2) with (height X) by reflexivity. rewrite r_modes0, r_w0, r_h0. cbn [m_constrain modes0].
+    replace (negb (negb (0 =? 0))) with true by reflexivity. rewrite andb_true_r.
+    destruct (v_origin v); split_ifs; try lia; try reflexivity; f_equal; lia.
   - rewrite F4. cbn [sr_start with_rotten]. exact S1.
   - rewrite F5. cbn [sr_end with_rotten]. exact S2.
   - discriminate.
@@ -402,16 +447,16 @@ Proof.
   rewrite csi_args_1 in *. cbn [arg nth] in *. rewrite dflt_zero in *.
   assert (forall r', replies_of (Respond r' :: events X) = replies_of (events X) ++ [r']) as Hr.
   { intros r'. unfold replies_of. cbn [rev]. rewrite flat_map_app. cbn [flat_map app]. reflexivity. }
-  unfold csi_status_report, respond in *. rewrite r_cur0, r_modes0 in *. cbn [fst snd m_constrain modes0] in *. cbv zeta in *.
+  unfold csi_status_report, respond in *. rewrite r_cur0, r_modes0, r_top0 in *. cbn [fst snd m_constrain modes0] in *. cbv zeta in *.
   destruct (Z.max n 0 =? 5) eqn:C5; [|destruct (Z.max n 0 =? 6) eqn:C6].
   - replace (n =? 5) with true by lia.
-    constructor; cbn [v_w v_h v_g v_x v_y v_pend v_top v_bot v_attr v_sb v_sbknown v_replies events with_events]; auto.
+    constructor; cbn [v_w v_h v_g v_x v_y v_pend v_top v_bot v_attr v_sb v_sbknown v_replies v_cs v_origin events with_events]; auto.
     rewrite Hr, r_replies0, map_app. reflexivity.
   - replace (n =? 5) with false by lia. replace (n =? 6) with true by lia.
-    constructor; cbn [v_w v_h v_g v_x v_y v_pend v_top v_bot v_attr v_sb v_sbknown v_replies events with_events]; auto.
+    constructor; cbn [v_w v_h v_g v_x v_y v_pend v_top v_bot v_attr v_sb v_sbknown v_replies v_cs v_origin events with_events]; auto.
     rewrite Hr, r_replies0, map_app. reflexivity.
   - replace (n =? 5) with false by lia. replace (n =? 6) with false by lia.
-    constructor; cbn [v_w v_h v_g v_x v_y v_pend v_top v_bot v_attr v_sb v_sbknown v_replies v_cs]; auto.
+    constructor; cbn [v_w v_h v_g v_x v_y v_pend v_top v_bot v_attr v_sb v_sbknown v_replies v_cs v_origin]; auto.
     rewrite app_nil_r. exact r_replies0.
 Qed.
 
@@ -537,8 +582,8 @@ Proof. intros Hf H. induction H; cbn [all2]; [reflexivity|]. rewrite (Hf _ _ H),
 
 Lemma R0_agrees t v : R0 t v -> agrees t v = true.
 Proof.
-  intros []. unfold agrees. rewrite r_cur0, r_top0, r_bot0. cbn [fst snd].
+  intros []. unfold agrees. rewrite r_cur0, r_top0, r_bot0, r_modes0. cbn [fst snd m_constrain modes0].
   rewrite (all2_Forall2 _ (Forall2 cell_rel) _ _ (fun a b => all2_Forall2 _ cell_rel a b cell_rel_agrees) r_grid0).
-  cbn [andb]. lia.
+  cbn [andb]. replace (Bool.eqb (v_origin v) (v_origin v)) with true by (destruct (v_origin v); reflexivity). lia.
 Qed.
 
